@@ -71,8 +71,6 @@ type chainCfg struct {
 	calm       bool
 	genesis    chain.GenesisOpts
 	steps      []chain.StepPlan // explicit steps (corner scenarios); nil = RandomScenario
-	// noCompensation: hand zrnt the plain standard state wrapper (shows the stale sync-committee cache)
-	noCompensation bool
 }
 
 func chainScenarios(tier string, seed int64) []scenario {
@@ -143,10 +141,6 @@ func chainScenarios(tier string, seed int64) []scenario {
 		if cfg.name == "" {
 			cfg.name = fmt.Sprintf("random-%02d", i)
 		}
-		if noCompensationEvery > 0 && i%noCompensationEvery == noCompensationEvery-1 {
-			cfg.noCompensation = true
-			cfg.name += "-nocomp"
-		}
 		name := fmt.Sprintf("chain-%s-%s-%s-v%d", cfg.name, cfg.preset, schedName(cfg.forks), cfg.validators)
 		out = append(out, scenario{
 			name:  name,
@@ -180,8 +174,10 @@ func runChain(rec *beaconrec.Recorder, cfg chainCfg, name string, rng *rand.Rand
 	rec.Sigs = sigLookup(c.Keys)
 	rec.ExpectValid = true
 	rec.ProbeSlots = true
-	rec.CompensateSyncCache = !cfg.noCompensation
-	c.CompensateSyncCache = !cfg.noCompensation
+	// zrnt is observed unmodified: no harness-side reload of the context's sync-committee caches
+	// (chain.SyncFixState) unless explicitly asked for with -compensate-sync-cache
+	rec.CompensateSyncCache = compensateSyncCache
+	c.CompensateSyncCache = compensateSyncCache
 	if c.Engine != nil {
 		eng := c.Engine
 		rec.EngineOK = func() bool {
